@@ -788,7 +788,7 @@ func (em *emitter) emitSelector(v *ast.Selector, reg int8, dstType reflect.Type)
 
 	// Struct field.
 	expr := v.Expr
-	if op, ok := expr.(*ast.UnaryOperator); ok && op.Op == ast.OperatorPointer && em.typ(expr).Kind() == reflect.Struct {
+	if op, ok := expr.(*ast.UnaryOperator); ok && op.Op == ast.OperatorPointer && em.isStructIndirection(expr) {
 		expr = op.Expr
 	}
 	typ := em.typ(expr)
